@@ -1,7 +1,7 @@
 From Coq Require Import ZArith List Bool String.
 From Coq Require Import ExtrOcamlBasic.
 From Falcon.lib Require Import Wire PyStr.
-From Falcon.C14 Require Import Spec Model.
+From Falcon.C14 Require Import Spec Model ModelAsync.
 Import ListNotations.
 Open Scope Z_scope.
 
@@ -38,13 +38,18 @@ Definition v_obs (o : obs) : val :=
   L [v_result (o_res o); vnat (o_tell o); vbool (o_end o)].
 
 (* ops: 0 spec cursor  [0; cs; maxlen; data; history]
-        1 sync model   [1; cs; maxlen; data; schedule; history] *)
+        1 sync model   [1; cs; maxlen; data; schedule; history]
+        2 async model  [2; cs; chunks; history] *)
 Definition run (v : val) : val :=
   match v with
   | L [I 0; cs; maxlen; data; h] =>
     vlist v_obs (spec_history (dnat cs) (dnat maxlen) (dstr data) (dlist d_hop h))
   | L [I 1; cs; maxlen; data; sch; h] =>
     vlist v_result (sync_history (dnat cs) (dnat maxlen) (dstr data) (dlist dnat sch) (dlist d_hop h))
+  | L [I 2; cs; chunks; h] =>
+    let cl := dlist dstr chunks in
+    let fuel := (List.length cl + List.length (List.concat cl) + 10)%nat in
+    vlist v_obs (async_history (dnat cs) true fuel cl (dlist d_hop h))
   | _ => L [I (-1)]
   end.
 
